@@ -102,11 +102,51 @@ def match_d20(case, kind, detail):
 
     def in_zone(p):
         return any(OX.under(p, lk) or OX.under(p, tgt) for lk, tgt in zones)
-    if detail[0] == 'err' and detail[1][0] in ('ManifestMismatch', 'ManifestIncompatibleEntry') and len(detail[1]) > 1:
+    if detail[0] == 'err' and detail[1][0] == 'ManifestIncompatibleEntry':
+        return True        # the exception names the entry's own relative path only
+    if detail[0] == 'err' and detail[1][0] == 'ManifestMismatch':
         return in_zone(detail[1][1])
     if detail[0] == 'ok' and isinstance(detail[1], list) and len(detail[1]) == 2:
         return all(in_zone(x[0]) for x in detail[1][1])
     return False
 
 
-MATCHERS = {'D11': match_d11, 'D20': match_d20}
+def d21_dirs(case):
+    """directories of files that are listed by a MANIFEST entry and by an entry of another type and parse as Manifests"""
+    if 'd21' not in case.meta:
+        tags = {}
+        for m, ents in pre_manifests(case).items():
+            d = os.path.dirname(m)
+            for e in ents:
+                if e[0] in OX.FILE_TAGS:
+                    tags.setdefault(OX.norm(d, e[1]), set()).add(e[0])
+        dirs = set()
+        for p, tg in tags.items():
+            if 'MANIFEST' in tg and len(tg) > 1:
+                ino = case.tree.lookup(p)
+                if ino is not None and case.tree.nodes[ino]['k'] == 'f' and OX.parse(p, case.tree.nodes[ino]['data']) is not None:
+                    dirs.add(os.path.dirname(p))
+        case.meta['d21'] = sorted(dirs)
+    return case.meta['d21']
+
+
+def match_d21(case, kind, detail):
+    dirs = d21_dirs(case)
+    if not dirs:
+        return False
+
+    def near(p):
+        return p is not None and any(OX.under(p, d) for d in dirs)
+    if kind == 'exactness':
+        return all(near(problem_path(p)) for p in detail)
+    if kind == 'fresh-verify':
+        if detail[0] == 'err' and detail[1][0] == 'ManifestIncompatibleEntry':
+            return True
+        if detail[0] == 'err' and detail[1][0] == 'ManifestMismatch':
+            return near(detail[1][1])
+        if detail[0] == 'ok' and isinstance(detail[1], list) and len(detail[1]) == 2:
+            return all(near(x[0]) for x in detail[1][1])
+    return False
+
+
+MATCHERS = {'D11': match_d11, 'D20': match_d20, 'D21': match_d21}
